@@ -80,6 +80,17 @@ func collectNames(steps []M) (topics, denoms, tokens, dids []string) {
 	walk = func(v any) {
 		switch x := v.(type) {
 		case M:
+			// identifiers by the role the field plays in its message (names need no particular prefix: bulk entries are f000.., g000..)
+			if ty, ok := x["type"].(string); ok && strings.HasPrefix(ty, "pnft.") {
+				if d, ok := x["denom"].(string); ok {
+					set["n"][d] = true
+					if id, ok := x["id"].(string); ok {
+						set["i"][id] = true
+					}
+				} else if id, ok := x["id"].(string); ok {
+					set["n"][id] = true
+				}
+			}
 			for k, e := range x {
 				if s, ok := e.(string); ok {
 					switch {
